@@ -9,6 +9,7 @@
 // parser == outcome of a fresh parser on the same bytes; every outcome is an
 // expression or a SymEngineException; free function parse() == fresh Parser.
 #include "../sim/harness.h"
+#include <cstring>
 #include <symengine/parser.h>
 #include <symengine/parser/parser.h>
 #include <symengine/parser/sbml/sbml_parser.h>
@@ -394,13 +395,34 @@ bool cheap(const std::string &s0)
     for (const char *w : {"pow", "root", "sqr"})
         for (size_t p = s.find(w); p != std::string::npos; p = s.find(w, p + 1))
             npow++;
-    bool special = false;
+    // functions whose cost (time, memory, recursion depth) grows with the
+    // VALUE of a literal argument
+    size_t special = 0;
     for (const char *w : {"gamma", "primorial", "primepi", "zeta", "beta",
                           "factorial", "levi_civita", "dirichlet_eta", "lambertw"})
-        if (s.find(w) != std::string::npos)
-            special = true;
+        for (size_t p = s.find(w); p != std::string::npos; p = s.find(w, p + 1))
+            special++;
     if (special && (maxrun > 4 || npow > 0))
         return false;
+    // nested or repeated ones (gamma(gamma(18)) = factorial(17! - 1),
+    // primepi(gamma(20)), ...) reach astronomically large arguments from
+    // two-digit literals
+    if (special > 1)
+        return false;
+    // a floating-point literal with an exponent hides its magnitude
+    if (special)
+        for (size_t i = 1; i + 1 < s.size(); i++)
+            if ((s[i] == 'e' || s[i] == 'E')
+                && (isdigit((unsigned char)s[i - 1]) || s[i - 1] == '.')
+                && (isdigit((unsigned char)s[i + 1]) || s[i + 1] == '+'
+                    || s[i + 1] == '-'))
+                return false;
+    // zeta, dirichlet_eta and polygamma of integers compute Bernoulli numbers
+    // with the built-in quadratic algorithm (no FLINT/Arb here): B_1410 takes
+    // 4 s, B_2526 half a minute on the shipped build
+    for (const char *w : {"zeta", "dirichlet_eta", "polygamma"})
+        if (s.find(w) != std::string::npos && maxrun > 2)
+            return false;
     if (runs == 0)
         return true;
     if (npow == 0)
@@ -409,6 +431,42 @@ bool cheap(const std::string &s0)
         return maxrun <= 5;
     if (npow == 2)
         return maxrun <= 1 && !big_digit && runs <= 3;
+    return false;
+}
+
+// Inputs of a listed known finding (known_findings.jsonl, C18, signature
+// asan:stack-overflow:recursion=lowergamma / =uppergamma): lowergamma(n, x)
+// and uppergamma(n, x) recurse n deep for an integer or half-integer n and
+// return an expression nested n deep, so the stack overflows in the function
+// itself (n >~ 5e4 on the shipped build, n >~ 5e3 with sanitizer-sized
+// frames) or later in whatever walks the result (printing, destruction). The
+// family is identified by its input: one of the two names with a literal of
+// four or more digits inside its argument list. Random exploration leaves it
+// out, because each of those later overflows would surface under another
+// signature; the finding itself
+// is replayed from known/C18/ at the start of every check (plan config
+// "run_known_family": true) for as long as it is listed.
+bool known_deep_recursion_family(const std::string &s0)
+{
+    std::string s = s0.substr(0, s0.find('\0'));
+    for (const char *w : {"lowergamma", "uppergamma"})
+        for (size_t p = s.find(w); p != std::string::npos; p = s.find(w, p + 1)) {
+            // the text of the call's argument list: up to the matching ')'
+            // (to the end of the input if it is unbalanced)
+            size_t i = p + strlen(w);
+            int depth = 0;
+            size_t run = 0;
+            for (; i < s.size(); i++) {
+                char c = s[i];
+                if (c == '(')
+                    depth++;
+                else if (c == ')' && --depth <= 0)
+                    break;
+                run = isdigit((unsigned char)c) ? run + 1 : 0;
+                if (run >= 4)
+                    return true;
+            }
+        }
     return false;
 }
 
@@ -457,6 +515,9 @@ void exec(Run &run)
     bool lc = run.plan.at("config").at("local_constants").as_bool();
     auto consts = lc ? local_constants()
                      : std::map<const std::string, const RCP<const Basic>>();
+    bool run_known_family
+        = run.plan.at("config").has("run_known_family")
+          && run.plan.at("config").at("run_known_family").as_bool();
     std::unique_ptr<Parser> reused(new Parser(consts));
     std::unique_ptr<SbmlParser> reused_sbml(new SbmlParser(consts));
     const Json &ops = run.plan.at("ops");
@@ -468,6 +529,11 @@ void exec(Run &run)
         std::string which = o.gets("which", "main");
         bool xr = o.at("xor").as_bool();
         std::string s = apply_faults(o.gets("src"), o.at("faults"), run);
+        if (!run_known_family && known_deep_recursion_family(s)) {
+            run.probe("skipped_known_finding_family");
+            run.ev("skip known-finding family");
+            continue;
+        }
         if (!cheap(s)) {
             run.probe("skipped_potentially_expensive");
             run.ev("skip expensive");
